@@ -260,14 +260,64 @@ func cmdCheck(args []string) int {
 		for _, ob := range r.Obligations {
 			seen[ob.Name] = true
 			_, isClaimed := claimed[ob.Name]
-			if isClaimed && ob.Status == "undecided" && ob.File != "" {
-				// one retry at 4x the timeout before an undecided claimed obligation is reported
-				if script, err := os.ReadFile(ob.File); err == nil {
-					r := Solve(string(script), filepath.Dir(ob.File), sanitize(ob.Name)+".retry", 4*timeout)
-					if r.Status == "unsat" {
-						ob.Status, ob.Solver, ob.Seconds = "discharged", r.Solver+"(retry)", r.Seconds
-					} else if r.Status == "sat" {
-						ob.Status, ob.Solver, ob.Model = "refuted", r.Solver, r.Model
+			typedFile := strings.TrimSuffix(ob.File, ".smt2") + ".typed.smt2"
+			_, typedErr := os.Stat(typedFile)
+			hasTyped := ob.File != "" && typedErr == nil
+			// a model found by the variant without the heap typing axioms while the typed variant ran
+			// out of time is not a refutation yet
+			weakRefutation := ob.Status == "refuted" && hasTyped && !strings.HasSuffix(ob.Solver, "+typing")
+			if isClaimed && (ob.Status == "undecided" || weakRefutation) && ob.File != "" {
+				// retries at 4x and then 12x the timeout (both variants) before a claimed obligation that
+				// ran out of time is reported: a loaded machine must not turn into an alarm
+				for _, factor := range []int{4, 12} {
+					type vr struct {
+						r     SolveResult
+						typed bool
+					}
+					ch := make(chan vr, 2)
+					n := 0
+					if script, err := os.ReadFile(ob.File); err == nil {
+						n++
+						go func() { ch <- vr{Solve(string(script), filepath.Dir(ob.File), sanitize(ob.Name)+".retry", factor*timeout), false} }()
+					}
+					if hasTyped {
+						if script, err := os.ReadFile(typedFile); err == nil {
+							n++
+							go func() {
+								ch <- vr{Solve(string(script), filepath.Dir(ob.File), sanitize(ob.Name)+".typed.retry", factor*timeout), true}
+							}()
+						}
+					}
+					decided := false
+					var plainSat *SolveResult
+					for i := 0; i < n; i++ {
+						v := <-ch
+						switch {
+						case v.r.Status == "unsat":
+							suffix := "(retry)"
+							if v.typed {
+								suffix = "+typing(retry)"
+							}
+							ob.Status, ob.Solver, ob.Seconds = "discharged", v.r.Solver+suffix, v.r.Seconds
+							decided = true
+						case v.r.Status == "sat" && (v.typed || !hasTyped):
+							if !decided {
+								ob.Status, ob.Solver, ob.Model = "refuted", v.r.Solver, v.r.Model
+								if v.typed {
+									ob.Solver += "+typing"
+								}
+								decided = true
+							}
+						case v.r.Status == "sat":
+							r := v.r
+							plainSat = &r
+						}
+					}
+					if decided {
+						break
+					}
+					if plainSat != nil && factor == 12 {
+						ob.Status, ob.Solver, ob.Model = "refuted", plainSat.Solver, plainSat.Model
 					}
 				}
 			}
